@@ -83,7 +83,7 @@ def cache_key(tier, seed):
     for p in (C.VH, C.DRIVER):
         st = os.stat(p)
         h.update(("%s:%d:%d" % (p, st.st_mtime_ns, st.st_size)).encode())
-    h.update(("v3:%s:%s" % (tier, seed)).encode())
+    h.update(("v5:%s:%s" % (tier, seed)).encode())
     return h.hexdigest()[:16]
 
 
@@ -128,21 +128,25 @@ def run_differential(tier, seed):
                     if li != lm:
                         dis.append({"file": c, "line": ln, "meta": le.strip(),
                                     "keys": sorted(diff_keys(lm, li))})
-        # tie (B): the election-layer acceptor over the P-level event traces of the same runs
-        pn, pfirst, pnd = C.run_model_on_shards(d, "pel-sim")
-        prej = []
-        for c in C.shard_files(d, "pel-sim", "cases"):
-            m = c.replace(".cases.", ".model.")
-            with open(m) as fm:
-                for ln, lm in enumerate(fm, 1):
-                    if not lm.startswith("1 "):
-                        prej.append({"file": c, "line": ln, "answer": lm.strip()})
-        pev = 0
-        for c in C.shard_files(d, "pel-sim", "impl"):
-            with open(c) as f:
-                for l in f:
-                    pev += int(l.split()[1])
-        s = {"pel_traces": pn, "pel_events": pev, "pel_rejects": prej[:200],
+        # tie (B): the acceptors of P (election layer, log layer) over the P-level event traces of the same runs
+        acc = {}
+        for pref, key in (("pel-sim", "pelection"), ("plog-sim", "plog")):
+            pn, pfirst, pnd = C.run_model_on_shards(d, pref)
+            prej = []
+            for c in C.shard_files(d, pref, "cases"):
+                m = c.replace(".cases.", ".model.")
+                with open(m) as fm:
+                    for ln, lm in enumerate(fm, 1):
+                        if not lm.startswith("1 "):
+                            prej.append({"file": c, "line": ln, "answer": lm.strip()})
+            pev = 0
+            for c in C.shard_files(d, pref, "impl"):
+                with open(c) as f:
+                    for l in f:
+                        pev += int(l.split()[1])
+            acc[key] = {"traces": pn, "events": pev, "rejects": prej[:200]}
+        pn, pev, prej = acc["pelection"]["traces"], acc["pelection"]["events"], acc["pelection"]["rejects"]
+        s = {"acceptors": acc, "pel_traces": pn, "pel_events": pev, "pel_rejects": prej[:200],
              "cases": n, "disagreements": len(dis), "dis": dis[:2000], "hist": hist, "panics": panics,
              "classes": len(classes), "class_hist": dict(classes.most_common(12)), "dir": d}
         json.dump(s, open(summ, "w"))
@@ -199,18 +203,25 @@ def check(spec, tier, seed, replay=None):
         try:
             C.log("[%s] node differential (%s)" % (pid, tier))
             summ, rundir = run_differential(tier, seed)
-            proj = set(spec["projection"]) | {"panic"}
+            # (A) decides only on this property's projection; for protocol-level properties whose
+            # theorems are about P the deciding tie is the acceptor (B) and (A) is diagnostic
+            proj = (set(spec["projection"]) | {"panic"}) if spec["projection"] else set()
             mine = [d for d in summ["dis"] if proj & set(d["keys"])]
             if mine:
                 d0 = mine[0]
                 broken.append("correspondence: model M/Raft.v+RawNode.v and implementation disagree on %d of %d calls in this property's projection %s; first: %s differs in %s"
                               % (len(mine), summ["cases"], sorted(proj), d0["meta"], d0["keys"]))
-            if spec.get("acceptor") and summ.get("pel_rejects"):
-                r0 = summ["pel_rejects"][0]
-                broken.append("refinement: %d of %d simulated executions are NOT executions of the abstract protocol P (acceptor P/ElectionAccept.v); first: %s line %d answer '%s' (0 <event index> <reason 1 pre / 2 guard / 3 post> <event code>)"
-                              % (len(summ["pel_rejects"]), summ["pel_traces"], r0["file"], r0["line"], r0["answer"]))
-            if spec.get("acceptor"):
-                k2, prob2 = C.incoq_sample(rundir, "pel-sim", "run_pelection", "Run.RunPElection", 3, rng, maxlen=40000)
+            accname = spec.get("acceptor")
+            if accname:
+                a = summ.get("acceptors", {}).get(accname, {"traces": 0, "events": 0, "rejects": []})
+                summ["pel_traces"], summ["pel_events"], summ["pel_rejects"] = a["traces"], a["events"], a["rejects"]
+                pref, fun, mod = {"pelection": ("pel-sim", "run_pelection", "Run.RunPElection"),
+                                  "plog": ("plog-sim", "run_plog", "Run.RunPLog")}[accname]
+                if a["rejects"]:
+                    r0 = a["rejects"][0]
+                    broken.append("refinement: %d of %d simulated executions are NOT executions of the abstract protocol P (acceptor %s); first: %s line %d answer '%s' (0 <event index> <reason 1 pre / 2 guard / 3 post> <event code>)"
+                                  % (len(a["rejects"]), a["traces"], accname, r0["file"], r0["line"], r0["answer"]))
+                k2, prob2 = C.incoq_sample(rundir, pref, fun, mod, 2, rng, maxlen=30000)
                 if prob2:
                     broken.append("refinement (vm_compute): " + prob2)
             k, prob = C.incoq_sample(rundir, "node-sim", "run_node", "Run.RunNode", spec["incoq"][tier], rng, maxlen=60000)
